@@ -49,19 +49,22 @@ Insert(s, i, e) == SubSeq(s, 1, i - 1) \o <<e>> \o SubSeq(s, i, Len(s))
 
 \* ---------------------------------------------------------------- TransactionPool.Candidate as a fold over the pool
 \* state of the loop: selected list, dropped positions, balances of the scratch world context
-RECURSIVE Scan(_, _, _, _, _, _)
-Scan(i, sel, drop, bal, bt, maxCount) ==
-  IF i > Len(pool) \/ Len(sel) >= maxCount THEN [sel |-> sel, drop |-> drop]
+\* maxCount = 0: the default limit (1500, never reached here); small: a byte limit below the size of any transaction --
+\* the loop stops in front of the first transaction it would select (what was dropped before it stays dropped)
+RECURSIVE Scan(_, _, _, _, _, _, _)
+Scan(i, sel, drop, bal, bt, maxCount, small) ==
+  IF i > Len(pool) \/ (maxCount > 0 /\ Len(sel) >= maxCount) THEN [sel |-> sel, drop |-> drop]
   ELSE LET e == pool[i]  tx == e.tx IN
-       IF tx.ts <= bt - Th THEN Scan(i + 1, sel, drop \cup {i}, bal, bt, maxCount)            \* expired: dropped
-       ELSE IF tx.ts > bt + Th THEN Scan(i + 1, sel, drop, bal, bt, maxCount)                  \* future: skipped
-       ELSE IF tx \in committed THEN Scan(i + 1, sel, drop \cup {i}, bal, bt, maxCount)        \* already processed
-       ELSE IF tx.limit < MinStep THEN Scan(i + 1, sel, drop \cup {i}, bal, bt, maxCount)      \* NotEnoughStep
+       IF tx.ts <= bt - Th THEN Scan(i + 1, sel, drop \cup {i}, bal, bt, maxCount, small)            \* expired: dropped
+       ELSE IF tx.ts > bt + Th THEN Scan(i + 1, sel, drop, bal, bt, maxCount, small)                  \* future: skipped
+       ELSE IF tx \in committed THEN Scan(i + 1, sel, drop \cup {i}, bal, bt, maxCount, small)        \* already processed
+       ELSE IF tx.limit < MinStep THEN Scan(i + 1, sel, drop \cup {i}, bal, bt, maxCount, small)      \* NotEnoughStep
        ELSE IF bal[tx.from] < Cost(tx)                                                           \* NotEnoughBalance:
-            THEN Scan(i + 1, sel, IF e.direct THEN drop ELSE drop \cup {i}, bal, bt, maxCount)  \* kept if user-submitted
+            THEN Scan(i + 1, sel, IF e.direct THEN drop ELSE drop \cup {i}, bal, bt, maxCount, small)  \* kept if user-submitted
        ELSE LET b1 == [bal EXCEPT ![tx.from] = @ - Cost(tx)]
                 b2 == [b1 EXCEPT ![tx.to] = @ + tx.value]
-            IN Scan(i + 1, Append(sel, tx), drop, b2, bt, maxCount)
+            IN IF small THEN [sel |-> sel, drop |-> drop]
+               ELSE Scan(i + 1, Append(sel, tx), drop, b2, bt, maxCount, small)
 RECURSIVE KeepFrom(_, _)
 KeepFrom(i, drop) == IF i > Len(pool) THEN <<>>
                      ELSE (IF i \in drop THEN <<>> ELSE <<pool[i]>>) \o KeepFrom(i + 1, drop)
@@ -86,7 +89,7 @@ BlockValid(l, bt) == WhyInvalid(l, bt, committed) = "ok"
 \* ---------------------------------------------------------------- history
 Can == MaxOps = 0 \/ Len(hist) < MaxOps
 NoTx == [n |-> 0, from |-> "", to |-> "", value |-> 0, limit |-> 0, ts |-> 0]
-Rec(op) == [op |-> op, tx |-> NoTx, direct |-> FALSE, res |-> "", bt |-> 0, max |-> 0, sel |-> <<>>, txs |-> {}]
+Rec(op) == [op |-> op, tx |-> NoTx, direct |-> FALSE, res |-> "", bt |-> 0, max |-> 0, small |-> FALSE, sel |-> <<>>, txs |-> {}]
 PoolNs == [i \in 1..Len(pool') |-> pool'[i].tx.n]
 Log(r) == hist' = IF MaxOps = 0 THEN <<r>> ELSE Append(hist, r @@ [pool |-> PoolNs])
 
@@ -112,17 +115,41 @@ Commit(S) ==
   /\ Log([Rec("commit") EXCEPT !.txs = S])
 
 \* TransactionPool.Candidate for a block with timestamp bt
-Candidate(bt, maxCount) ==
-  /\ Can /\ Len(pool) > 0
-  /\ LET r == Scan(1, <<>>, {}, Bal0, bt, maxCount) IN
+Candidate(bt, maxCount, small) ==
+  /\ Can
+  /\ LET r == Scan(1, <<>>, {}, Bal0, bt, maxCount, small) IN
      /\ pool' = Keep(r.drop)
      /\ UNCHANGED <<made, known, committed>>
-     /\ Log([Rec("candidate") EXCEPT !.bt = bt, !.max = maxCount, !.sel = r.sel])
+     /\ Log([Rec("candidate") EXCEPT !.bt = bt, !.max = maxCount, !.small = small, !.sel = r.sel])
+
+\* TransactionPool.DropOldTXs(t) (TransactionManager.RemoveOldTxByBlockTS after a block is finalized): everything with a
+\* timestamp <= t leaves the pool
+DropOld(t) ==
+  /\ Can /\ Len(pool) > 0
+  /\ pool' = SelectSeq(pool, LAMBDA e : e.tx.ts > t)
+  /\ UNCHANGED <<made, known, committed>>
+  /\ Log([Rec("dropold") EXCEPT !.bt = t])
+
+\* TransactionPool.CheckTxs(wc): is there anything that is not expired for a block with timestamp bt
+HasFresh(bt) == \E i \in 1..Len(pool) : pool[i].tx.ts > bt - Th
+CheckTxs(bt) ==
+  /\ Can /\ MaxOps # 0
+  /\ UNCHANGED <<pool, made, known, committed>>
+  /\ Log([Rec("checktxs") EXCEPT !.bt = bt, !.res = IF HasFresh(bt) THEN "true" ELSE "false"])
+
+\* TransactionPool.HasTx(id)
+HasTx(tx) ==
+  /\ Can /\ MaxOps # 0 /\ tx \in known
+  /\ UNCHANGED <<pool, made, known, committed>>
+  /\ Log([Rec("hastx") EXCEPT !.tx = tx, !.res = IF tx \in PoolTxs THEN "true" ELSE "false"])
 
 TxSpace == [n : 1..MaxN, from : Accounts, to : Accounts, value : Values, limit : Limits, ts : 1..MaxTs]
 Next == \/ \E tx \in TxSpace, d \in BOOLEAN : Add(tx, d)
         \/ \E S \in SUBSET known : Commit(S)
-        \/ \E bt \in 1..MaxTs, m \in 1..MaxPool : Candidate(bt, m)
+        \/ \E bt \in 1..MaxTs, m \in 0..MaxPool, sm \in BOOLEAN : Candidate(bt, m, sm)
+        \/ \E t \in 0..MaxTs : DropOld(t)
+        \/ \E bt \in 1..MaxTs : CheckTxs(bt)
+        \/ \E tx \in TxSpace : HasTx(tx)
 Spec == Init /\ [][Next]_vars
 
 ----------------------------------------------------------------------------
@@ -137,6 +164,11 @@ DropsJustified ==
        \A i \in 1..Len(pool) : (pool[i] \notin Range(pool')) =>
           LET tx == pool[i].tx IN
           tx.ts <= Last.bt - Th \/ tx \in committed \/ tx.limit < MinStep \/ ~pool[i].direct]_vars
+\* CheckTxs answering "nothing to propose" is right: Candidate would select nothing for that block time
+NothingToPropose == \A bt \in 1..MaxTs : ~HasFresh(bt) => Scan(1, <<>>, {}, Bal0, bt, 0, FALSE).sel = <<>>
+\* DropOldTXs removes exactly the transactions at or below the given time
+DropOldExact == [][(Stepped /\ Last.op = "dropold") =>
+                    \A i \in 1..Len(pool) : (pool[i] \in Range(pool')) <=> (pool[i].tx.ts > Last.bt)]_vars
 TypeOK == /\ \A i, j \in 1..Len(pool) : i # j => pool[i].tx # pool[j].tx
           /\ Len(pool) <= MaxPool
           \* transactions of one sender are in timestamp order
